@@ -402,10 +402,16 @@ package grpctunnel
 //@     ghost reqctx = result
 //@   at call timeoutFromHeaders#1
 //@     assert[C18] @fromrequest arg0 == reqmd
+//@   ghost tdur time.Duration = 0
+//@   ghost tok bool = false
+//@   at aftercall timeoutFromHeaders#1
+//@     ghost tdur = result0
+//@     ghost tok = result1
 //@   at call WithCancel#1
 //@     assert[C02,C04,C17] @handlerctx arg0 == reqctx
+//@     assert[C18] @nodeadline !tok
 //@   at call WithTimeout#1
-//@     assert[C18] @deadline arg1 == timeout
+//@     assert[C18] @deadline arg1 == timeout && tok && arg1 == tdur
 //@     assert[C02,C04,C17] @handlerctx arg0 == reqctx
 //@   at go#1
 //@     assert[C08,C14] @registered s.streams[streamID] == str && str.streamID == streamID && str.svr == s && str.stream == s.stream
@@ -594,7 +600,7 @@ package grpctunnel
 //@     assert[C16] @lookahead e1 == nil && !st.isClientStream
 //@   ensures[C01,C16] @first     err == nil ==> e1 == nil && sameSlice(data, d1)
 //@   ensures[C16]     @single    err == nil && !st.isClientStream ==> count("call:readMsgLocked") == 2 && e2 == io.EOF && ok2
-//@   ensures[C16]     @second    !st.isClientStream && e1 == nil && e2 == nil ==> isStatus(err, codes.InvalidArgument) && !ok && data == nil && st.readErr == err
+//@   ensures[C14,C16] @second    !st.isClientStream && e1 == nil && e2 == nil ==> isStatus(err, codes.InvalidArgument) && !ok && data == nil && st.readErr == err
 //@   ensures[C16]     @streaming st.isClientStream ==> count("call:readMsgLocked") == 1
 //@   ensures[C01]     @errnodata err != nil ==> data == nil
 //@   assigns nothing
@@ -1056,7 +1062,7 @@ package grpctunnel
 //@   ensures[C02,C07,C16] @single    err == nil && !st.isServerStream ==> count("call:readMsgLocked") == 2 && e2 == io.EOF && ok2
 //@   ensures[C01,C09,C16] @protoerr  !ok ==> err != nil && isStatus(err, codes.Internal)
 //@   ensures[C02,C04,C07] @laterstatus !st.isServerStream && e1 == nil && e2 != nil && e2 != io.EOF ==> err == e2 && ok == ok2 && data == nil
-//@   ensures[C16]     @second    !st.isServerStream && e1 == nil && e2 == nil ==> isStatus(err, codes.Internal) && !ok && data == nil && st.readErr == err
+//@   ensures[C14,C16] @second    !st.isServerStream && e1 == nil && e2 == nil ==> isStatus(err, codes.Internal) && !ok && data == nil && st.readErr == err
 //@   ensures[C16]     @streaming st.isServerStream ==> count("call:readMsgLocked") == 1
 //@   ensures[C01]     @errnodata err != nil ==> data == nil
 //@   assigns nothing
